@@ -48,6 +48,13 @@ type Opts struct {
 	SplitAny  bool   // the split column may be left of the holding column (children meet a busy action)
 	Backoff   bool   // retriable output with MinRetention 4..12 ms and Multiplier 1.5..3 instead of 1 ms / 1.0
 	Maint     bool   // batcher MaintenanceFn every 1..30 ms
+
+	// the two causes of a retry give-up (backoff.go: `next == backoff.Stop || attempts used up`)
+	Retries       []int // candidate retry counts (BackoffOpts.AttemptNum; negative = retry for ever) instead of 0..1
+	StopRetention int   // n of 4 cases get a MinRetention past the point where elapsed + next interval crosses the backoff
+	//                      library's MaxElapsedTime of 15 min on the FIRST failure (31 min, 1 h, 24 h: next >= retention / 2):
+	//                      the batch is given up by backoff.Stop with attempts remaining (or with unlimited attempts)
+	DqDelay [2]int // blocking dead-queue output: each of its sends takes that many ms (every second case: 0)
 }
 
 type Rng interface {
@@ -90,6 +97,9 @@ func GenCase(r Rng, o Opts) hx.Sx {
 		workers, count, capacity = r.Range(2, 3), 1, 24
 	}
 	retry := r.Range(0, 1)
+	if len(o.Retries) > 0 {
+		retry = pick(r, o.Retries)
+	}
 	gapMul := 3
 	if o.GapMul > 0 {
 		gapMul = o.GapMul
@@ -236,7 +246,7 @@ func GenCase(r Rng, o Opts) hx.Sx {
 		}
 		plan = append(plan, hx.L(hx.I(d), hx.I(f)))
 	}
-	if !o.Recycle && !o.Backoff && !o.Maint {
+	if !o.Recycle && !o.Backoff && !o.Maint && o.StopRetention == 0 && o.DqDelay[1] == 0 {
 		return hx.L(cfg, hx.L(feeders...), hx.L(plan...))
 	}
 	avg, retention, mult, maint := 0, 0, 0, 0
@@ -249,8 +259,28 @@ func GenCase(r Rng, o Opts) hx.Sx {
 	if o.Maint {
 		maint = r.Range(1, 30)
 	}
+	if o.StopRetention > 0 && r.Chance(o.StopRetention, 4) {
+		retention = StopRetentions[r.Intn(len(StopRetentions))]
+	}
+	if o.DqDelay[1] > 0 {
+		dqDelay := 0
+		if r.Bool() {
+			dqDelay = r.Range(o.DqDelay[0], o.DqDelay[1])
+		}
+		return hx.L(cfg, hx.L(feeders...), hx.L(plan...), hx.L(hx.I(avg), hx.I(retention), hx.I(mult), hx.I(maint), hx.I(dqDelay)))
+	}
 	return hx.L(cfg, hx.L(feeders...), hx.L(plan...), hx.L(hx.I(avg), hx.I(retention), hx.I(mult), hx.I(maint)))
 }
+
+// StopRetentions are MinRetention values (ms) with which RetriableBatcher.Out is given up by the backoff library itself:
+// ExponentialBackOff.NextBackOff draws the first interval from [0.5, 1.5] x MinRetention and answers backoff.Stop when
+// elapsed + interval > MaxElapsedTime (15 min, a constant of backoff.go's literal).  Anything above 30 min stops on the first
+// failure; 10..30 min would stop at random and otherwise sleep for minutes, and a Stop after k >= 1 failures needs 15 min of
+// real time (the clock of the literal is backoff.SystemClock): neither is generated (notes/hook-request-C01-r4.md).
+var StopRetentions = []int{1_860_000, 3_600_000, 86_400_000}
+
+// StopRetentionMs: the case's retention crosses the threshold.
+const StopRetentionMs = 1_800_000
 
 // genKids: the "kids" array of a split event: Kids[0]..Kids[1] objects, each with its own op per action (the columns left
 // of and at the split column are never consulted: a child starts behind its parent), its own match mask, and the fields
@@ -366,6 +396,19 @@ var (
 	// the batcher's MaintenanceFn hook (elasticsearch, clickhouse, ... set it) runs in the worker between two batches
 	FamMaint = Opts{Procs: []int{1, 2, 4}, Actions: [2]int{0, 2}, Ops: "ppppd", OutKinds: []int{1, 2}, Sources: [2]int{1, 2}, Streams: [2]int{1, 2},
 		Events: [2]int{5, 30}, Maint: true}
+	// both causes of a retry give-up, without a dead queue: attempts used up (retry 0..3, MinRetention 1 ms) and backoff.Stop
+	// on the first failure with attempts remaining or unlimited (retry -3, -1, 1..3 with MinRetention 31 min .. 24 h; three of
+	// four cases).  A regression that treats the two causes differently (reports the loss for one only, keeps retrying, commits
+	// before the give-up, ...) breaks the batcher LTS (RetryGiveUp / RetryCall guards, OutEnd length and status) and monitor 14
+	FamRetryStop = Opts{Procs: []int{1, 2, 4}, Actions: [2]int{0, 2}, Ops: "pppd", OutKinds: []int{2}, Failures: true, Sources: [2]int{1, 2},
+		Streams: [2]int{1, 2}, Events: [2]int{4, 16}, Retries: []int{-3, -1, 0, 1, 2, 3}, StopRetention: 3}
+	// ... and with a dead queue whose output blocks for up to 150 ms in every second case: between the hand-over and the dead
+	// queue's acknowledgement NO output has acknowledged the events of the given-up batch.  The main batch must come back from
+	// Out emptied (OutEnd n = 0, status 3) whatever the cause of the give-up; a main batcher that keeps the events commits them
+	// un-acknowledged (monitor 14: Controller.Commit inside the commit section of a batch its own output never acknowledged),
+	// and the dead queue commits them a second time
+	FamDeadQStop = Opts{Procs: []int{1, 2, 4}, Actions: [2]int{0, 2}, Ops: "pppd", OutKinds: []int{2}, Failures: true, DeadQ: true, Sources: [2]int{1, 2},
+		Streams: [2]int{1, 2}, Events: [2]int{4, 16}, Retries: []int{-3, -1, 0, 1, 2, 3}, StopRetention: 3, DqDelay: [2]int{20, 150}}
 )
 
 // Stats counts, per case, which thresholds of /repo/pipeline the case crosses (for the evidence file's distribution).
@@ -393,6 +436,17 @@ func Stats(count func(string), j *Job) {
 		}
 		if hx.Int(ext[3]) > 0 {
 			count("pipe: batcher maintenance hook set")
+		}
+		if hx.Int(ext[1]) > StopRetentionMs && g(5) == 2 {
+			count("pipe: retention past the MaxElapsedTime crossing (backoff.Stop on the first failure)")
+			if g(9) < 0 {
+				count("pipe: retention past the MaxElapsedTime crossing, unlimited retries")
+			} else if g(9) > 0 {
+				count("pipe: retention past the MaxElapsedTime crossing, attempts remaining")
+			}
+		}
+		if len(ext) > 4 && hx.Int(ext[4]) > 0 {
+			count("pipe: blocking dead-queue output")
 		}
 	}
 	big, huge, wide, grow, kids0, kids1, kidsMany := false, false, false, false, false, false, false
@@ -438,6 +492,13 @@ func Stats(count func(string), j *Job) {
 			count(x.k)
 		}
 	}
+	seen := map[string]bool{}
+	once := func(k string) {
+		if !seen[k] {
+			seen[k] = true
+			count(k)
+		}
+	}
 	for _, l := range hx.Items(j.Obs) {
 		o := hx.Items(l)
 		switch hx.Int(o[2]) {
@@ -448,6 +509,19 @@ func Stats(count func(string), j *Job) {
 		case LMaint:
 			if hx.Int(o[3]) == 1 {
 				count("pipe: maintenance hook ran")
+			}
+		case 14: // pipeline.VtRetryGiveUp on the main batcher: d = deadq + 2*stop
+			if hx.Int(o[0]) == 1 {
+				switch fl := hx.Int(o[6]); {
+				case fl >= 2 && fl%2 == 1:
+					once("pipe: give-up by backoff.Stop, dead queue")
+				case fl >= 2:
+					once("pipe: give-up by backoff.Stop, no dead queue")
+				case fl%2 == 1:
+					once("pipe: give-up by attempts, dead queue")
+				default:
+					once("pipe: give-up by attempts, no dead queue")
+				}
 			}
 		}
 	}
